@@ -20,7 +20,8 @@ type Unit struct {
 	PkgDir    string    `json:"pkg_dir"`  // relative to module dir
 	PkgPath   string    `json:"pkg_path"` // import path
 	PkgName   string    `json:"pkg_name"`
-	Files     []string  `json:"files"` // relative to /verif/harness
+	GenDocs   bool      `json:"gen_docs,omitempty"` // also inject the table of documentation examples generated from /repo/docs
+	Files     []string  `json:"files"`              // relative to /verif/harness
 	Harnesses []Harness `json:"harnesses,omitempty"`
 }
 
@@ -103,7 +104,12 @@ var checks = []Check{
 			Harness{Fn: "ZZC13Outcome", Expect: []string{"exit", "panic", "test1", "test2", "test3", "testbad", "witness:end"}},
 			Harness{Fn: "ZZC13Hsl", Expect: []string{"hsl-ok", "hsl-err", "witness:end"}},
 			Harness{Fn: "ZZC13Len", Quick: p("N", 3), Thorough: p("N", 6), Expect: []string{"witness:end"}},
-		), lexUnit([]string{"lexer/c03.go"},
+		), func() Unit {
+			u := evalUnit([]string{"evaluator/common.go", "evaluator/docs.go"},
+				Harness{Fn: "ZZC13DocExamples", Expect: []string{"doc-example", "witness:end"}})
+			u.GenDocs = true
+			return u
+		}(), lexUnit([]string{"lexer/c03.go"},
 			Harness{Fn: "ZZC13IsIdent", Quick: p("NI", 2), Thorough: p("NI", 3), Expect: []string{"witness:end"}},
 		)},
 		Assumptions: []string{
